@@ -230,9 +230,12 @@ pub fn gen_program(rng: &mut Rng, forced: Option<usize>) -> Program {
       _ => b.push("// @ts-self-types-not=\"./decoy.d.ts\"\n"),
     }
   }
-  // ---- statements
+  // ---- statements (one program in twelve has none at all: only the
+  // leading comments, possibly after a shebang)
+  let no_statements = forced.is_none() && rng.chance(1, 12);
   let n = match forced {
     Some(_) => 1,
+    None if no_statements => 0,
     None => rng.range(1, 9),
   };
   let all_kinds = 22usize;
@@ -355,10 +358,29 @@ pub fn gen_program(rng: &mut Rng, forced: Option<usize>) -> Program {
         constructs.push("export-import-equals");
       }
       11 if lang != Lang::Dts => {
-        b.push(&format!("const dy{} = await import({}", stmt_no, t(rng)));
+        // at the top level or nested in a container whose body has to be
+        // traversed to find it
+        let container = rng.below(6);
+        let (open, close, awaited): (String, &str, bool) = match container {
+          1 if lang.typed() => (format!("namespace NsD{} {{ export ", stmt_no), " }\n", false),
+          2 if lang.typed() => ("declare global { interface Marker { a: 1 } }\n".to_string(), "", true),
+          3 => (format!("function fd{}() {{ ", stmt_no), " }\n", false),
+          4 => (format!("class Cd{} {{ m() {{ ", stmt_no), " } }\n", false),
+          5 if lang.typed() => (format!("module ModD{} {{ namespace Inner {{ ", stmt_no), " } }\n", false),
+          _ => (String::new(), "", true),
+        };
+        b.push(&open);
+        b.push(&format!("const dy{} = {}import({}", stmt_no, if awaited { "await " } else { "" }, t(rng)));
         b.token(&lit, &val, "dynamic");
         b.push(&format!("{});\n", t(rng)));
-        constructs.push("dynamic-import");
+        b.push(close);
+        constructs.push(match container {
+          1 if lang.typed() => "dynamic-import-in-namespace",
+          3 => "dynamic-import-in-function",
+          4 => "dynamic-import-in-class",
+          5 if lang.typed() => "dynamic-import-in-nested-module",
+          _ => "dynamic-import",
+        });
       }
       12 if lang != Lang::Dts => {
         // no-substitution template
@@ -388,16 +410,39 @@ pub fn gen_program(rng: &mut Rng, forced: Option<usize>) -> Program {
         constructs.push("dynamic-import-attributes");
       }
       14 if lang.typed() => {
+        let container = rng.below(4);
+        let (open, close) = match container {
+          1 => (format!("namespace NsT{} {{ export ", stmt_no), " }\n"),
+          2 => ("declare global { ".to_string(), " }\n"),
+          3 => (format!("declare namespace DnT{}.Deep {{ ", stmt_no), " }\n"),
+          _ => (String::new(), ""),
+        };
+        b.push(&open);
         b.push(&format!("type I{} = import(", stmt_no));
         b.token(&lit, &val, "static");
         b.push(").Foo;\n");
-        constructs.push("import-type-expression");
+        b.push(close);
+        constructs.push(match container {
+          1 => "import-type-expression-in-namespace",
+          2 => "import-type-expression-in-declare-global",
+          3 => "import-type-expression-in-declare-namespace",
+          _ => "import-type-expression",
+        });
       }
       15 if lang.typed() => {
-        b.push(&format!("declare const tv{}: typeof import(", stmt_no));
+        let in_global = rng.chance(1, 3);
+        if in_global {
+          b.push("declare global { ");
+          b.push(&format!("const tv{}: typeof import(", stmt_no));
+        } else {
+          b.push(&format!("declare const tv{}: typeof import(", stmt_no));
+        }
         b.token(&lit, &val, "static");
         b.push(");\n");
-        constructs.push("typeof-import");
+        if in_global {
+          b.push(" }\n");
+        }
+        constructs.push(if in_global { "typeof-import-in-declare-global" } else { "typeof-import" });
       }
       16 => {
         b.push(&format!("import j{} from ", stmt_no));
@@ -434,8 +479,12 @@ pub fn gen_program(rng: &mut Rng, forced: Option<usize>) -> Program {
       }
     }
   }
-  b.push("export {};\n");
-  if rng.chance(1, 4) {
+  if no_statements {
+    constructs.push(if shebang { "no-statements-after-shebang" } else { "no-statements" });
+  } else {
+    b.push("export {};\n");
+  }
+  if !no_statements && rng.chance(1, 4) {
     let v = *rng.pick(&["./out.js.map", "https://cdn.test/m.js.map", "./ü.map"]);
     b.push("//# sourceMappingURL=");
     b.token(v, v, "source-map-url");
